@@ -93,29 +93,34 @@ Definition iO := aget_aset_other ikey record ikey_eqb ikey_eqb_spec.
 Definition iDS := aget_adel_same ikey record ikey_eqb ikey_eqb_spec.
 Definition iDO := aget_adel_other ikey record ikey_eqb ikey_eqb_spec.
 
-(** * The state invariant and its preservation *)
-Section Inv.
+(** * The state invariant and its preservation
+
+    The invariant is parametrised by [Q], what is known of every stored name.  Under FIXED
+    parameters [p] it is [stored_ok p] (the name is a result of Normalize under [p]); for
+    histories in which the parameters change (Proofs/NameMsgsProofs.v) it is "a result of Normalize
+    under SOME parameters".  The step lemmas need [Q] only for results of Normalize under the
+    parameters of that step ([HQ]). *)
+Definition agree (s : state) (a : addr) (k : string) : option record :=
+  match rget s k with
+  | Some r => if N.eqb (r_addr r) a then Some r else None
+  | None => None
+  end.
+
+Section InvQ.
   Variable hash : string -> string.
-  Variable p : params.
+  Variable Q : string -> Prop.
 
-  Definition agree (s : state) (a : addr) (k : string) : option record :=
-    match rget s k with
-    | Some r => if N.eqb (r_addr r) a then Some r else None
-    | None => None
-    end.
+  Definition keys_okQ (s : state) : Prop :=
+    forall k r, rget s k = Some r -> name_key hash (r_name r) = Some k /\ Q (r_name r).
 
-  Definition keys_ok (s : state) : Prop :=
-    forall k r, rget s k = Some r ->
-      name_key hash (r_name r) = Some k /\ exists raw, normalize p raw = Some (r_name r).
-
-  Record inv (s : state) : Prop := {
-    inv_nd_recs : NoDup (map fst (st_recs s));
-    inv_nd_idx : NoDup (map fst (st_idx s));
-    inv_key : keys_ok s;
-    inv_idx : forall a k, iget s (a, k) = agree s a k
+  Record invQ (s : state) : Prop := {
+    invq_nd_recs : NoDup (map fst (st_recs s));
+    invq_nd_idx : NoDup (map fst (st_idx s));
+    invq_key : keys_okQ s;
+    invq_idx : forall a k, iget s (a, k) = agree s a k
   }.
 
-  Lemma inv_init : inv init.
+  Lemma invQ_init : invQ init.
   Proof.
     constructor; simpl.
     - constructor.
@@ -145,11 +150,11 @@ Section Inv.
     destruct (aget String.eqb (st_recs s) k); [discriminate|reflexivity].
   Qed.
 
-  Lemma add_record_inv : forall s name a restr md s',
-    NoDup (map fst (st_recs s)) -> NoDup (map fst (st_idx s)) -> keys_ok s ->
-    (exists raw, normalize p raw = Some name) ->
+  Lemma add_record_invQ : forall s name a restr md s',
+    NoDup (map fst (st_recs s)) -> NoDup (map fst (st_idx s)) -> keys_okQ s ->
+    Q name ->
     (forall k, name_key hash name = Some k -> pre_add s k a) ->
-    add_record hash s name a restr md = Some s' -> inv s'.
+    add_record hash s name a restr md = Some s' -> invQ s'.
   Proof.
     intros s name a restr md s' Hn1 Hn2 Hk Hraw Hpre H.
     destruct (add_record_spec _ _ _ _ _ _ H) as [k [Ek [_ Es]]]. subst s'.
@@ -172,92 +177,96 @@ Section Inv.
         exact (Hp1 a' k' E).
   Qed.
 
-  Lemma inv_pre_add_unbound : forall s k a, inv s -> rget s k = None -> pre_add s k a.
+  Lemma inv_pre_add_unbound : forall s k a, invQ s -> rget s k = None -> pre_add s k a.
   Proof.
     intros s k a Hi Hr. split.
-    - intros a' k' _. apply (inv_idx s Hi).
-    - intros a' _. rewrite (inv_idx s Hi). unfold agree. rewrite Hr. reflexivity.
+    - intros a' k' _. apply (invq_idx s Hi).
+    - intros a' _. rewrite (invq_idx s Hi). unfold agree. rewrite Hr. reflexivity.
   Qed.
 
-  Lemma set_name_record_inv : forall s name a restr s',
-    inv s -> set_name_record hash p s name a restr = Some s' -> inv s'.
-  Proof.
-    intros s name a restr s' Hi H. unfold set_name_record in H.
-    destruct (normalize p name) as [n|] eqn:En; [|discriminate].
-    destruct (add_record_spec _ _ _ _ _ _ H) as [k [Ek [Hnone _]]].
-    eapply add_record_inv; try exact H.
-    - exact (inv_nd_recs s Hi).
-    - exact (inv_nd_idx s Hi).
-    - exact (inv_key s Hi).
-    - exists name. exact En.
-    - intros k0 Ek0. rewrite Ek in Ek0. injection Ek0 as Ek0. subst k0.
-      apply inv_pre_add_unbound; [exact Hi|exact (Hnone eq_refl)].
-  Qed.
-
-  Lemma update_name_record_inv : forall s name a restr s',
-    inv s -> update_name_record hash p s name a restr = Some s' -> inv s'.
-  Proof.
-    intros s name a restr s' Hi H. unfold update_name_record in H.
-    destruct (normalize p name) as [n|] eqn:En; [|discriminate].
-    assert (Hraw : exists raw, normalize p raw = Some n) by (exists name; exact En).
-    unfold get_record in H.
-    destruct (name_key hash n) as [k|] eqn:Ek.
-    2:{ unfold add_record in H. rewrite Ek in H. discriminate. }
-    destruct (rget s k) as [ex|] eqn:Eex.
-    - destruct (N.eqb_spec (r_addr ex) a) as [Ea|Ea].
-      + eapply add_record_inv; try exact H; try exact Hraw.
-        * exact (inv_nd_recs s Hi).
-        * exact (inv_nd_idx s Hi).
-        * exact (inv_key s Hi).
-        * intros k0 Ek0. rewrite Ek in Ek0. injection Ek0 as Ek0. subst k0. split.
-          -- intros a' k' _. apply (inv_idx s Hi).
-          -- intros a' Hne. rewrite (inv_idx s Hi). unfold agree. rewrite Eex.
-             destruct (N.eqb_spec (r_addr ex) a') as [E'|E']; [congruence|reflexivity].
-      + eapply add_record_inv; try exact H; try exact Hraw; cbn [st_recs st_idx].
-        * exact (inv_nd_recs s Hi).
-        * apply nodup_adel; [exact ikey_eqb_spec|exact (inv_nd_idx s Hi)].
-        * exact (inv_key s Hi).
-        * intros k0 Ek0. rewrite Ek in Ek0. injection Ek0 as Ek0. subst k0. split.
-          -- intros a' k' Hne. unfold iget. cbn [st_recs st_idx].
-             rewrite iDO; [|intros Hc; injection Hc as Hc1 Hc2; congruence].
-             apply (inv_idx s Hi).
-          -- intros a' Hne. unfold iget. cbn [st_recs st_idx].
-             destruct (N.eqb_spec a' (r_addr ex)) as [E'|E'].
-             ++ subst a'. apply iDS.
-             ++ rewrite iDO; [|intros Hc; injection Hc as Hc1; congruence].
-                fold (iget s (a', k)). rewrite (inv_idx s Hi). unfold agree. rewrite Eex.
-                destruct (N.eqb_spec (r_addr ex) a') as [E''|E'']; [congruence|reflexivity].
-    - eapply add_record_inv; try exact H; try exact Hraw.
-      + exact (inv_nd_recs s Hi).
-      + exact (inv_nd_idx s Hi).
-      + exact (inv_key s Hi).
-      + intros k0 Ek0. rewrite Ek in Ek0. injection Ek0 as Ek0. subst k0.
-        apply inv_pre_add_unbound; [exact Hi|exact Eex].
-  Qed.
-
-  Lemma delete_record_inv : forall s name s',
-    inv s -> delete_record hash s name = Some s' -> inv s'.
+  Lemma delete_record_invQ : forall s name s',
+    invQ s -> delete_record hash s name = Some s' -> invQ s'.
   Proof.
     intros s name s' Hi H. unfold delete_record, get_record in H.
     destruct (name_key hash name) as [k|] eqn:Ek; [|discriminate].
     destruct (rget s k) as [r|] eqn:Er; [|discriminate].
     injection H as H. subst s'. constructor; cbn [st_recs st_idx].
-    - apply nodup_adel; [exact String.eqb_spec|exact (inv_nd_recs s Hi)].
-    - apply nodup_adel; [exact ikey_eqb_spec|exact (inv_nd_idx s Hi)].
+    - apply nodup_adel; [exact String.eqb_spec|exact (invq_nd_recs s Hi)].
+    - apply nodup_adel; [exact ikey_eqb_spec|exact (invq_nd_idx s Hi)].
     - intros k' r'. unfold rget. cbn [st_recs st_idx].
       destruct (String.eqb_spec k' k) as [E|E].
       + subst k'. rewrite rDS. discriminate.
-      + rewrite (rDO _ _ _ E). exact (inv_key s Hi k' r').
+      + rewrite (rDO _ _ _ E). exact (invq_key s Hi k' r').
     - intros a' k'. unfold iget, agree, rget. cbn [st_recs st_idx].
       destruct (String.eqb_spec k' k) as [E|E].
       + subst k'. rewrite rDS.
         destruct (N.eqb_spec a' (r_addr r)) as [Ea|Ea].
         * subst a'. apply iDS.
         * rewrite iDO; [|intros Hc; injection Hc as Hc1; congruence].
-          fold (iget s (a', k)). rewrite (inv_idx s Hi). unfold agree. rewrite Er.
+          fold (iget s (a', k)). rewrite (invq_idx s Hi). unfold agree. rewrite Er.
           destruct (N.eqb_spec (r_addr r) a') as [E'|E']; [congruence|reflexivity].
       + rewrite (rDO _ _ _ E). rewrite iDO; [|intros Hc; injection Hc as Hc1 Hc2; congruence].
-        apply (inv_idx s Hi).
+        apply (invq_idx s Hi).
+  Qed.
+
+  Section StepQ.
+  Variable p : params.
+  Hypothesis HQ : forall raw n, normalize p raw = Some n -> Q n.
+
+  Lemma set_name_record_invQ : forall s name a restr s',
+    invQ s -> set_name_record hash p s name a restr = Some s' -> invQ s'.
+  Proof.
+    intros s name a restr s' Hi H. unfold set_name_record in H.
+    destruct (normalize p name) as [n|] eqn:En; [|discriminate].
+    destruct (add_record_spec _ _ _ _ _ _ H) as [k [Ek [Hnone _]]].
+    eapply add_record_invQ; try exact H.
+    - exact (invq_nd_recs s Hi).
+    - exact (invq_nd_idx s Hi).
+    - exact (invq_key s Hi).
+    - exact (HQ name n En).
+    - intros k0 Ek0. rewrite Ek in Ek0. injection Ek0 as Ek0. subst k0.
+      apply inv_pre_add_unbound; [exact Hi|exact (Hnone eq_refl)].
+  Qed.
+
+  Lemma update_name_record_invQ : forall s name a restr s',
+    invQ s -> update_name_record hash p s name a restr = Some s' -> invQ s'.
+  Proof.
+    intros s name a restr s' Hi H. unfold update_name_record in H.
+    destruct (normalize p name) as [n|] eqn:En; [|discriminate].
+    assert (Hraw : Q n) by (exact (HQ name n En)).
+    unfold get_record in H.
+    destruct (name_key hash n) as [k|] eqn:Ek.
+    2:{ unfold add_record in H. rewrite Ek in H. discriminate. }
+    destruct (rget s k) as [ex|] eqn:Eex.
+    - destruct (N.eqb_spec (r_addr ex) a) as [Ea|Ea].
+      + eapply add_record_invQ; try exact H; try exact Hraw.
+        * exact (invq_nd_recs s Hi).
+        * exact (invq_nd_idx s Hi).
+        * exact (invq_key s Hi).
+        * intros k0 Ek0. rewrite Ek in Ek0. injection Ek0 as Ek0. subst k0. split.
+          -- intros a' k' _. apply (invq_idx s Hi).
+          -- intros a' Hne. rewrite (invq_idx s Hi). unfold agree. rewrite Eex.
+             destruct (N.eqb_spec (r_addr ex) a') as [E'|E']; [congruence|reflexivity].
+      + eapply add_record_invQ; try exact H; try exact Hraw; cbn [st_recs st_idx].
+        * exact (invq_nd_recs s Hi).
+        * apply nodup_adel; [exact ikey_eqb_spec|exact (invq_nd_idx s Hi)].
+        * exact (invq_key s Hi).
+        * intros k0 Ek0. rewrite Ek in Ek0. injection Ek0 as Ek0. subst k0. split.
+          -- intros a' k' Hne. unfold iget. cbn [st_recs st_idx].
+             rewrite iDO; [|intros Hc; injection Hc as Hc1 Hc2; congruence].
+             apply (invq_idx s Hi).
+          -- intros a' Hne. unfold iget. cbn [st_recs st_idx].
+             destruct (N.eqb_spec a' (r_addr ex)) as [E'|E'].
+             ++ subst a'. apply iDS.
+             ++ rewrite iDO; [|intros Hc; injection Hc as Hc1; congruence].
+                fold (iget s (a', k)). rewrite (invq_idx s Hi). unfold agree. rewrite Eex.
+                destruct (N.eqb_spec (r_addr ex) a') as [E''|E'']; [congruence|reflexivity].
+    - eapply add_record_invQ; try exact H; try exact Hraw.
+      + exact (invq_nd_recs s Hi).
+      + exact (invq_nd_idx s Hi).
+      + exact (invq_key s Hi).
+      + intros k0 Ek0. rewrite Ek in Ek0. injection Ek0 as Ek0. subst k0.
+        apply inv_pre_add_unbound; [exact Hi|exact Eex].
   Qed.
 
   (** the root-creation loop, for any property preserved by SetNameRecord *)
@@ -303,16 +312,16 @@ Section Inv.
         refine (IH _ _ _ _ H). intros s2 Hs2. discriminate Hs2.
   Qed.
 
-  Lemma create_root_names_inv : forall s name owner restr s',
-    inv s -> create_root_names hash p s name owner restr = Some s' -> inv s'.
+  Lemma create_root_names_invQ : forall s name owner restr s',
+    invQ s -> create_root_names hash p s name owner restr = Some s' -> invQ s'.
   Proof.
     intros s name owner restr s' Hi H. rewrite create_root_names_eq in H.
-    refine (create_root_fold inv owner restr _ _ _ _ _ _ H).
-    - intros s1 n s2 Hi1 _ Hs. exact (set_name_record_inv _ _ _ _ _ Hi1 Hs).
+    refine (create_root_fold invQ owner restr _ _ _ _ _ _ H).
+    - intros s1 n s2 Hi1 _ Hs. exact (set_name_record_invQ _ _ _ _ _ Hi1 Hs).
     - intros s1 Hs1. injection Hs1 as Hs1. subst s1. exact Hi.
   Qed.
 
-  Lemma exec_inv : forall s o s', inv s -> exec hash p s o = Some s' -> inv s'.
+  Lemma exec_invQ : forall s o s', invQ s -> exec hash p s o = Some s' -> invQ s'.
   Proof.
     intros s o s' Hi H. destruct o as [signer name owner restr|parent signer child owner restr|signer name owner restr|name signer];
       simpl in H.
@@ -320,32 +329,85 @@ Section Inv.
       destruct (blank name); [discriminate|].
       destruct (negb (signer =? gov_authority)%N); [discriminate|].
       destruct (get_record hash s name); [discriminate|].
-      exact (create_root_names_inv _ _ _ _ _ Hi H).
+      exact (create_root_names_invQ _ _ _ _ _ Hi H).
     - unfold bind in H.
       destruct (blank parent || blank child || has_dot child); [discriminate|].
       destruct (get_record hash s parent) as [prec|]; [|discriminate].
       destruct (r_restricted prec && negb (resolves_to hash s parent signer)); [discriminate|].
       destruct (normalize p (child ++ "." ++ parent)) as [nm|]; [|discriminate].
       destruct (name_exists hash s nm); [discriminate|].
-      exact (set_name_record_inv _ _ _ _ _ Hi H).
+      exact (set_name_record_invQ _ _ _ _ _ Hi H).
     - unfold modify in H.
       destruct (blank name); [discriminate|].
       destruct (get_record hash s name) as [ex|]; [|discriminate].
       destruct (negb (signer =? gov_authority)%N && negb (signer =? r_addr ex)%N); [discriminate|].
-      exact (update_name_record_inv _ _ _ _ _ Hi H).
+      exact (update_name_record_invQ _ _ _ _ _ Hi H).
     - unfold delete in H.
       destruct (blank name); [discriminate|].
       destruct (normalize p name) as [n|]; [|discriminate].
       destruct (negb (name_exists hash s n)); [discriminate|].
       destruct (negb (resolves_to hash s n signer)); [discriminate|].
-      exact (delete_record_inv _ _ _ Hi H).
+      exact (delete_record_invQ _ _ _ Hi H).
   Qed.
 
-  Lemma step_inv : forall s o, inv s -> inv (fst (step hash p s o)).
+  Lemma step_invQ : forall s o, invQ s -> invQ (fst (step hash p s o)).
   Proof.
     intros s o Hi. unfold step. destruct (exec hash p s o) as [s'|] eqn:E; simpl; [|exact Hi].
-    exact (exec_inv _ _ _ Hi E).
+    exact (exec_invQ _ _ _ Hi E).
   Qed.
+  End StepQ.
+End InvQ.
+
+(** ** the invariant under fixed parameters (the interface used by Properties/C15.v and by the
+    attribute module's proofs) *)
+Definition stored_ok (p : params) (n : string) : Prop := exists raw, normalize p raw = Some n.
+
+Lemma stored_ok_normalize : forall p raw n, normalize p raw = Some n -> stored_ok p n.
+Proof. intros p raw n H. exists raw. exact H. Qed.
+
+Section Inv.
+  Variable hash : string -> string.
+  Variable p : params.
+
+  Definition keys_ok (s : state) : Prop :=
+    forall k r, rget s k = Some r ->
+      name_key hash (r_name r) = Some k /\ exists raw, normalize p raw = Some (r_name r).
+
+  Definition inv (s : state) : Prop := invQ hash (stored_ok p) s.
+
+  Lemma inv_nd_recs : forall s, inv s -> NoDup (map fst (st_recs s)).
+  Proof. intros s H. exact (invq_nd_recs _ _ s H). Qed.
+  Lemma inv_nd_idx : forall s, inv s -> NoDup (map fst (st_idx s)).
+  Proof. intros s H. exact (invq_nd_idx _ _ s H). Qed.
+  Lemma inv_key : forall s, inv s -> keys_ok s.
+  Proof. intros s H. exact (invq_key _ _ s H). Qed.
+  Lemma inv_idx : forall s, inv s -> forall a k, iget s (a, k) = agree s a k.
+  Proof. intros s H. exact (invq_idx _ _ s H). Qed.
+
+  Lemma inv_init : inv init.
+  Proof. exact (invQ_init hash (stored_ok p)). Qed.
+
+  Lemma set_name_record_inv : forall s name a restr s',
+    inv s -> set_name_record hash p s name a restr = Some s' -> inv s'.
+  Proof. exact (set_name_record_invQ hash (stored_ok p) p (stored_ok_normalize p)). Qed.
+
+  Lemma update_name_record_inv : forall s name a restr s',
+    inv s -> update_name_record hash p s name a restr = Some s' -> inv s'.
+  Proof. exact (update_name_record_invQ hash (stored_ok p) p (stored_ok_normalize p)). Qed.
+
+  Lemma delete_record_inv : forall s name s',
+    inv s -> delete_record hash s name = Some s' -> inv s'.
+  Proof. exact (delete_record_invQ hash (stored_ok p)). Qed.
+
+  Lemma create_root_names_inv : forall s name owner restr s',
+    inv s -> create_root_names hash p s name owner restr = Some s' -> inv s'.
+  Proof. exact (create_root_names_invQ hash (stored_ok p) p (stored_ok_normalize p)). Qed.
+
+  Lemma exec_inv : forall s o s', inv s -> exec hash p s o = Some s' -> inv s'.
+  Proof. exact (exec_invQ hash (stored_ok p) p (stored_ok_normalize p)). Qed.
+
+  Lemma step_inv : forall s o, inv s -> inv (fst (step hash p s o)).
+  Proof. exact (step_invQ hash (stored_ok p) p (stored_ok_normalize p)). Qed.
 
   Lemma run_from_inv : forall ops s, inv s -> inv (fold_left (fun s o => fst (step hash p s o)) ops s).
   Proof.
@@ -649,7 +711,49 @@ Section Steps.
       + intros k r Hr. left. exact Hr.
   Qed.
 
-  (** The ownership statement of C15 on the model, for the state after ANY history. *)
+  (** The ownership statement of C15 on the model, for ANY state [s] (reachable or not). *)
+  Lemma ownership_step : forall (s : state) (o : op),
+    let s' := fst (step hash p s o) in
+    (snd (step hash p s o) = Err -> s' = s) /\
+    (snd (step hash p s o) = Ok ->
+     match o with
+     | OpCreateRoot signer name owner restr =>
+         signer = gov_authority /\ get_record hash s name = None /\
+         (forall k r, rget s k = Some r -> rget s' k = Some r) /\
+         (forall k r, rget s' k = Some r ->
+            rget s k = Some r \/ (rget s k = None /\ r_addr r = owner /\ r_restricted r = restr))
+     | OpBind parent signer child owner restr =>
+         exists prec name k,
+           get_record hash s parent = Some prec /\
+           (r_restricted prec = true -> r_addr prec = signer) /\
+           normalize p (child ++ "." ++ parent) = Some name /\
+           name_key hash name = Some k /\ rget s k = None /\
+           rget s' k = Some {| r_name := name; r_addr := owner; r_restricted := restr |} /\
+           (forall k', k' <> k -> rget s' k' = rget s k')
+     | OpModify signer name owner restr =>
+         exists ex n k,
+           get_record hash s name = Some ex /\ (signer = gov_authority \/ signer = r_addr ex) /\
+           normalize p name = Some n /\ name_key hash n = Some k /\
+           rget s' k = Some {| r_name := n; r_addr := owner; r_restricted := restr |} /\
+           (forall k', k' <> k -> rget s' k' = rget s k')
+     | OpDelete name signer =>
+         exists ex n k,
+           normalize p name = Some n /\ name_key hash n = Some k /\
+           rget s k = Some ex /\ r_addr ex = signer /\
+           rget s' k = None /\ (forall k', k' <> k -> rget s' k' = rget s k')
+     end).
+  Proof.
+    intros s o s'. split; [apply step_err_unchanged|].
+    intros Hok. pose proof (step_ok_exec _ _ Hok) as He. fold s' in He.
+    destruct o as [signer name owner restr|parent signer child owner restr|signer name owner restr|name signer];
+      cbn [exec] in He.
+    - exact (create_root_spec _ _ _ _ _ _ He).
+    - exact (bind_spec _ _ _ _ _ _ _ He).
+    - exact (modify_spec _ _ _ _ _ _ He).
+    - exact (delete_spec _ _ _ _ He).
+  Qed.
+
+  (** ... in particular for the state after ANY history under fixed parameters. *)
   Lemma ownership : forall (ops : list op) (o : op),
     let s := run hash p ops in
     let s' := fst (step hash p s o) in
@@ -681,31 +785,60 @@ Section Steps.
            rget s k = Some ex /\ r_addr ex = signer /\
            rget s' k = None /\ (forall k', k' <> k -> rget s' k' = rget s k')
      end).
+  Proof. intros ops o. exact (ownership_step (run hash p ops) o). Qed.
+
+  (** Lookups answer for the queried name only up to its key (for any state satisfying the
+      invariant, whatever is known of the stored names). *)
+  Lemma lookup_up_to_key_inv : forall (Q : string -> Prop) s n r, invQ hash Q s ->
+    get_record hash s n = Some r ->
+    name_key hash (r_name r) = name_key hash n /\ Q (r_name r) /\
+    (r_name r = n \/ (r_name r <> n /\ name_key hash (r_name r) = name_key hash n)).
   Proof.
-    intros ops o s s'. split; [apply step_err_unchanged|].
-    intros Hok. pose proof (step_ok_exec _ _ Hok) as He. fold s' in He.
-    destruct o as [signer name owner restr|parent signer child owner restr|signer name owner restr|name signer];
-      cbn [exec] in He.
-    - exact (create_root_spec _ _ _ _ _ _ He).
-    - exact (bind_spec _ _ _ _ _ _ _ He).
-    - exact (modify_spec _ _ _ _ _ _ He).
-    - exact (delete_spec _ _ _ _ He).
+    intros Q s n r Hi H. unfold get_record in H.
+    destruct (name_key hash n) as [k|] eqn:Ek; [|discriminate].
+    destruct (invq_key hash Q _ Hi k r H) as [Hk HQ].
+    split; [exact Hk|]. split; [exact HQ|].
+    destruct (String.eqb_spec (r_name r) n) as [E|E]; [left; exact E|right; split; [exact E|exact Hk]].
   Qed.
 
-  (** Lookups answer for the queried name only up to its key. *)
   Lemma lookup_up_to_key : forall ops n r,
     get_record hash (run hash p ops) n = Some r ->
     name_key hash (r_name r) = name_key hash n /\ valid p (r_name r) /\
     (r_name r = n \/ (r_name r <> n /\ name_key hash (r_name r) = name_key hash n)).
   Proof.
-    intros ops n r H. pose proof (run_inv hash p ops) as Hi. unfold get_record in H.
-    destruct (name_key hash n) as [k|] eqn:Ek; [|discriminate].
-    destruct (inv_key hash p _ Hi k r H) as [Hk [raw Hraw]].
-    split; [exact Hk|]. split; [exact (normalize_idem _ _ _ Hraw)|].
-    destruct (String.eqb_spec (r_name r) n) as [E|E]; [left; exact E|right; split; [exact E|exact Hk]].
+    intros ops n r H.
+    destruct (lookup_up_to_key_inv _ _ _ _ (run_inv hash p ops) H) as [H1 [[raw Hraw] H3]].
+    split; [exact H1|]. split; [exact (normalize_idem _ _ _ Hraw)|exact H3].
   Qed.
 
   (** The by-address index lists exactly the records currently bound to each address. *)
+  Lemma index_agrees_inv : forall (Q : string -> Prop) s a, invQ hash Q s ->
+    (forall k, iget s (a, k) =
+               match rget s k with
+               | Some r => if N.eqb (r_addr r) a then Some r else None
+               | None => None
+               end) /\
+    (forall n, In n (reverse_lookup s a) <->
+               exists k r, rget s k = Some r /\ r_addr r = a /\ r_name r = n).
+  Proof.
+    intros Q s a Hi. split.
+    - intros k. exact (invq_idx hash Q s Hi a k).
+    - intros n. unfold reverse_lookup, records_of. rewrite map_map. rewrite in_map_iff. split.
+      + intros [[[a' k] r] [Hn Hin]]. apply filter_In in Hin. destruct Hin as [Hin Hf]. cbn [fst snd] in *.
+        apply andb_true_iff in Hf. destruct Hf as [Ha Hr]. apply N.eqb_eq in Ha. apply N.eqb_eq in Hr. subst a'.
+        pose proof (in_aget_some ikey record ikey_eqb ikey_eqb_spec _ _ _ (invq_nd_idx hash Q s Hi) Hin) as Hg.
+        change (iget s (a, k) = Some r) in Hg. rewrite (invq_idx hash Q s Hi) in Hg. unfold agree in Hg.
+        destruct (rget s k) as [r0|] eqn:E0; [|discriminate].
+        destruct (N.eqb (r_addr r0) a); [|discriminate]. injection Hg as Hg. subst r0.
+        exists k, r. split; [exact E0|]. split; assumption.
+      + intros [k [r [Hr [Ha Hn]]]]. exists ((a, k), r). cbn [snd]. split; [exact Hn|].
+        apply filter_In. cbn [fst snd]. split.
+        * apply (aget_some_in ikey record ikey_eqb ikey_eqb_spec).
+          change (iget s (a, k) = Some r). rewrite (invq_idx hash Q s Hi). unfold agree. rewrite Hr.
+          rewrite (proj2 (N.eqb_eq _ _) Ha). reflexivity.
+        * rewrite Ha. rewrite N.eqb_refl. reflexivity.
+  Qed.
+
   Lemma index_agrees : forall ops a,
     let s := run hash p ops in
     (forall k, iget s (a, k) =
@@ -715,49 +848,39 @@ Section Steps.
                end) /\
     (forall n, In n (reverse_lookup s a) <->
                exists k r, rget s k = Some r /\ r_addr r = a /\ r_name r = n).
-  Proof.
-    intros ops a s. pose proof (run_inv hash p ops) as Hi. fold s in Hi. split.
-    - intros k. exact (inv_idx hash p s Hi a k).
-    - intros n. unfold reverse_lookup, records_of. rewrite map_map. rewrite in_map_iff. split.
-      + intros [[[a' k] r] [Hn Hin]]. apply filter_In in Hin. destruct Hin as [Hin Hf]. cbn [fst snd] in *.
-        apply andb_true_iff in Hf. destruct Hf as [Ha Hr]. apply N.eqb_eq in Ha. apply N.eqb_eq in Hr. subst a'.
-        pose proof (in_aget_some ikey record ikey_eqb ikey_eqb_spec _ _ _ (inv_nd_idx hash p s Hi) Hin) as Hg.
-        change (iget s (a, k) = Some r) in Hg. rewrite (inv_idx hash p s Hi) in Hg. unfold agree in Hg.
-        destruct (rget s k) as [r0|] eqn:E0; [|discriminate].
-        destruct (N.eqb (r_addr r0) a); [|discriminate]. injection Hg as Hg. subst r0.
-        exists k, r. split; [exact E0|]. split; assumption.
-      + intros [k [r [Hr [Ha Hn]]]]. exists ((a, k), r). cbn [snd]. split; [exact Hn|].
-        apply filter_In. cbn [fst snd]. split.
-        * apply (aget_some_in ikey record ikey_eqb ikey_eqb_spec).
-          change (iget s (a, k) = Some r). rewrite (inv_idx hash p s Hi). unfold agree. rewrite Hr.
-          rewrite (proj2 (N.eqb_eq _ _) Ha). reflexivity.
-        * rewrite Ha. rewrite N.eqb_refl. reflexivity.
-  Qed.
+  Proof. intros ops a. exact (index_agrees_inv _ _ a (run_inv hash p ops)). Qed.
 
   (** Resolve and the by-address listing agree up to the key: a listed name resolves to the
       address; a name that resolves to the address is listed itself or, when keys collide,
       another name with the same key is listed in its place. *)
+  Lemma lookups_agree_up_to_key_inv : forall (Q : string -> Prop) s a n, invQ hash Q s ->
+    (In n (reverse_lookup s a) -> resolves_to hash s n a = true) /\
+    (resolves_to hash s n a = true ->
+       In n (reverse_lookup s a) \/
+       exists n', n' <> n /\ In n' (reverse_lookup s a) /\ name_key hash n' = name_key hash n).
+  Proof.
+    intros Q s a n Hi.
+    destruct (index_agrees_inv Q s a Hi) as [_ Hl]. split.
+    - intros Hin. apply Hl in Hin. destruct Hin as [k [r [Hr [Ha Hn]]]].
+      destruct (invq_key hash Q s Hi k r Hr) as [Hk _]. rewrite Hn in Hk.
+      unfold resolves_to, get_record. rewrite Hk. rewrite Hr. apply N.eqb_eq. exact Ha.
+    - intros Hres. unfold resolves_to, get_record in Hres.
+      destruct (name_key hash n) as [k|] eqn:Ek; [|discriminate].
+      destruct (rget s k) as [r|] eqn:Er; [|discriminate]. apply N.eqb_eq in Hres.
+      destruct (invq_key hash Q s Hi k r Er) as [Hk _].
+      destruct (String.eqb_spec (r_name r) n) as [E|E].
+      + left. apply Hl. exists k, r. split; [exact Er|]. split; [exact Hres|exact E].
+      + right. exists (r_name r). split; [exact E|]. split; [|exact Hk].
+        apply Hl. exists k, r. split; [exact Er|]. split; [exact Hres|reflexivity].
+  Qed.
+
   Lemma lookups_agree_up_to_key : forall ops a n,
     let s := run hash p ops in
     (In n (reverse_lookup s a) -> resolves_to hash s n a = true) /\
     (resolves_to hash s n a = true ->
        In n (reverse_lookup s a) \/
        exists n', n' <> n /\ In n' (reverse_lookup s a) /\ name_key hash n' = name_key hash n).
-  Proof.
-    intros ops a n s. pose proof (run_inv hash p ops) as Hi. fold s in Hi.
-    destruct (index_agrees ops a) as [_ Hl]. fold s in Hl. split.
-    - intros Hin. apply Hl in Hin. destruct Hin as [k [r [Hr [Ha Hn]]]].
-      destruct (inv_key hash p s Hi k r Hr) as [Hk _]. rewrite Hn in Hk.
-      unfold resolves_to, get_record. rewrite Hk. rewrite Hr. apply N.eqb_eq. exact Ha.
-    - intros Hres. unfold resolves_to, get_record in Hres.
-      destruct (name_key hash n) as [k|] eqn:Ek; [|discriminate].
-      destruct (rget s k) as [r|] eqn:Er; [|discriminate]. apply N.eqb_eq in Hres.
-      destruct (inv_key hash p s Hi k r Er) as [Hk _].
-      destruct (String.eqb_spec (r_name r) n) as [E|E].
-      + left. apply Hl. exists k, r. split; [exact Er|]. split; [exact Hres|exact E].
-      + right. exists (r_name r). split; [exact E|]. split; [|exact Hk].
-        apply Hl. exists k, r. split; [exact Er|]. split; [exact Hres|reflexivity].
-  Qed.
+  Proof. intros ops a n. exact (lookups_agree_up_to_key_inv _ _ a n (run_inv hash p ops)). Qed.
 End Steps.
 
 (** * The key function: where it is injective and where it is not *)
